@@ -422,6 +422,7 @@ def gen_arith(rng, namelist, depth, cfg):
 
 def gen_model(rng, frag, pool, cfg):
     spec = FRAGS[frag]
+    pool = list(dict.fromkeys(pool))     # feature names are unique within a model
     root = gen_tree(rng, frag, pool, cfg)
     ref = {"root": root, "ctcs": []}
     namelist = rm.names(ref)
